@@ -68,11 +68,12 @@ class Summaries:
         return f(ctx)
 
     def register_all(self):
-        from . import sum_core, sum_deku, sum_misc, sum_tracker
+        from . import sum_core, sum_deku, sum_misc, sum_tracker, sum_iter
         sum_core.register(self)
         sum_deku.register(self)
         sum_misc.register(self)
         sum_tracker.register(self)
+        sum_iter.register(self)
 
 
 class CallCtx:
